@@ -4,6 +4,7 @@ import (
 	"crypto/sha1"
 	"encoding/json"
 	"fmt"
+	"net/http/httptest"
 	"os"
 	"strconv"
 	"strings"
@@ -31,8 +32,10 @@ type detCase struct {
 		Files []treeFile `json:"files"`
 		Want  string     `json:"want"`
 	} `json:"tsteps"` // kind "treeseq": directories loaded and rendered one after the other, each with the output its files say
-	ExpOk []bool   `json:"expok"` // kind "seq": does step k render (true) or fail (false), whatever ran before
-	Tags  []string `json:"tags"`
+	Debugs []bool   `json:"debugs"` // kind "respseq": failing Responses in a row, the debug flag of each
+	Pages  []string `json:"pages"`
+	ExpOk  []bool   `json:"expok"` // kind "seq": does step k render (true) or fail (false), whatever ran before
+	Tags   []string `json:"tags"`
 }
 
 func detOnce(c detCase) (sig string, err error) {
@@ -74,6 +77,45 @@ func detOnce(c detCase) (sig string, err error) {
 			}
 			seen[src] = sig
 			sigs = append(sigs, sig)
+		}
+		return strings.Join(sigs, " ; "), nil
+	case "respseq":
+		root, serr := setupTree(c.Files, c.Cfg)
+		if serr != nil {
+			return "", serr
+		}
+		defer cleanupTree(root)
+		textwire.VerifReset()
+		seen := map[string]string{}
+		var sigs []string
+		for i, dbg := range c.Debugs {
+			tpl, lerr := textwire.NewTemplate(&config.Config{TemplateDir: c.Cfg.Dir, TemplateExt: c.Cfg.Ext, DebugMode: dbg})
+			if lerr != nil {
+				return "", lerr
+			}
+			page := c.Pages[i%len(c.Pages)]
+			w := httptest.NewRecorder()
+			rerr := tpl.Response(w, page, nil)
+			body := strings.ReplaceAll(w.Body.String(), root, "$ROOT")
+			if rerr == nil {
+				return fmt.Sprintf("DIFFERS step %d: Response(%s) returned nil", i+1, page), nil
+			}
+			_, ferr := tpl.String(page, nil)
+			msg := ""
+			if ferr != nil {
+				msg = ferr.Message()
+			}
+			shows := msg != "" && strings.Contains(body, msg)
+			if shows != dbg {
+				return fmt.Sprintf("DIFFERS step %d: debug mode is %v, the body of Response(%s) %s the error message (%q)", i+1, dbg, page,
+					map[bool]string{true: "shows", false: "does not show"}[shows], clip(body, 160)), nil
+			}
+			key := fmt.Sprintf("%v %s", dbg, page)
+			if prev, ok := seen[key]; ok && prev != body {
+				return fmt.Sprintf("DIFFERS step %d: Response(%s) with debug %v wrote %q before and %q now", i+1, page, dbg, clip(prev, 120), clip(body, 120)), nil
+			}
+			seen[key] = body
+			sigs = append(sigs, body)
 		}
 		return strings.Join(sigs, " ; "), nil
 	case "treeseq":
